@@ -264,3 +264,43 @@ func VerifC13BigIntLong() {
 		rt.Assert("c13.bigint-long.consumed", r.Len() == 2)
 	}
 }
+
+// VerifC13DimsLong: the dimension limits with the whole payload present. The
+// symbolic buffers of VerifC13Buffer are too short for a decoder to succeed
+// with a dimension near its limit, so a limit test that is wrong for one
+// dimension only (1 x 1025) ends in EOF there. Here the declared elements
+// are all in the stream (zero-length big integers), one dimension is at or
+// just above its limit, and the decoder must succeed exactly within the limits.
+func VerifC13DimsLong() {
+	put := func(b []byte, off, v int) { binary.LittleEndian.PutUint16(b[off:], uint16(v)) }
+	var err error
+	var within bool
+	var panicked bool
+	var rest int
+	switch rt.Choice(2) {
+	case 0: // Balances: assets x parts
+		dims := [][2]int{{1, channel.MaxNumParts}, {1, channel.MaxNumParts + 1}, {channel.MaxNumAssets, 1}, {channel.MaxNumAssets + 1, 1}, {0, channel.MaxNumParts + 1}, {channel.MaxNumAssets + 1, 0}}[rt.Choice(6)]
+		buf := make([]byte, 4+dims[0]*dims[1]+2)
+		put(buf, 0, dims[0])
+		put(buf, 2, dims[1])
+		within = dims[0] <= channel.MaxNumAssets && dims[1] <= channel.MaxNumParts
+		r := bytes.NewReader(buf)
+		panicked = rt.Try(func() { var x channel.Balances; err = x.Decode(r) })
+		rest = r.Len()
+		rt.Assert("c13.dims.balances.accepts-within", panicked || !within || err == nil)
+	case 1: // SubAlloc: number of balances
+		n := []int{channel.MaxNumAssets, channel.MaxNumAssets + 1}[rt.Choice(2)]
+		buf := make([]byte, 32+2+n+2+2)
+		put(buf, 32, n)
+		within = n <= channel.MaxNumAssets
+		r := bytes.NewReader(buf)
+		panicked = rt.Try(func() { var x channel.SubAlloc; err = x.Decode(r) })
+		rest = r.Len()
+	}
+	rt.Reach("c13.dims")
+	rt.Assert("c13.dims.nopanic", !panicked)
+	rt.Assert("c13.dims.limit", panicked || err != nil || within)
+	if !panicked && err == nil {
+		rt.Assert("c13.dims.consumed", rest == 2)
+	}
+}
